@@ -73,7 +73,8 @@ pub fn render(t: &str) -> Result<String, String> {
 /// family of well-formed templates built from literal chunks and {msg}/{prefix}/{pos}).
 pub fn template_order(_args: &[String]) -> String {
     std::panic::set_hook(Box::new(|_| {}));
-    let chunks: [(&str, &str); 9] = [("abc", "abc"), ("{msg}", "MSG"), ("{prefix}", "PFX"), ("{pos}", "3"), ("{{", "{"), ("}}", "}"), ("{ ", "{ "), ("x y", "x y"), ("{nokey}", "")];
+    let chunks: [(&str, &str); 11] = [("abc", "abc"), ("{msg}", "MSG"), ("{prefix}", "PFX"), ("{pos}", "3"), ("{{", "{"), ("}}", "}"), ("{ ", "{ "), ("x y", "x y"), ("{nokey}", ""),
+        ("\n", "\n"), ("{\n", "{\n")];
     let mut tried = 0;
     for a in 0..chunks.len() {
         for b in 0..chunks.len() {
@@ -87,7 +88,9 @@ pub fn template_order(_args: &[String]) -> String {
                 tried += 1;
                 match render(&t) {
                     Ok(got) => {
-                        if got.trim_end() != want.trim_end() {
+                        // the emulator's rows are right-trimmed: compare row by row without trailing blanks
+                        let norm = |x: &str| { let mut v: Vec<String> = x.split('\n').map(|l| l.trim_end().to_string()).collect(); while v.last().map(|l| l.is_empty()).unwrap_or(false) { v.pop(); } v };
+                        if norm(&got) != norm(&want) {
                             return format!("{{\"found\": true, \"clause\": \"C10-order rendering is not the in-order concatenation of literal text and expansions\", \"tried\": {}, \"input\": {{\"template\": {}, \"expected\": {}, \"rendered\": {}}}, \"rerun\": \"replay template_order\"}}", tried, crate::js(&t), crate::js(&want), crate::js(&got));
                         }
                     }
